@@ -78,12 +78,20 @@ type cfg struct {
 	q, b, t, p, o, n, fl, stop int
 	hy, fin, ns                int
 	tk, sk                     int // tk: batch time-out kind (0: t ms, 1: negative, 2: zero, 3: 1ns, 4: large); sk: barrier skew
+	uq                         int    // 1: WithQueueSize(0), the queue is an unbuffered channel (q is ignored)
+	dm                         int    // 1: every Enqueue picks a write mode (set / delete / delete+set / set+delete) for its object
+	md                         string // same-batch: the write modes of the successive Enqueues, one digit each
 	seed                       uint64
 }
 
 func (c cfg) line() string {
-	return fmt.Sprintf("cfg kind=%s q=%d b=%d t=%d tk=%d p=%d o=%d n=%d fl=%d stop=%d hy=%d fin=%d ns=%d sk=%d seed=%d",
-		c.kind, c.q, c.b, c.t, c.tk, c.p, c.o, c.n, c.fl, c.stop, c.hy, c.fin, c.ns, c.sk, c.seed)
+	md := c.md
+	if md == "" {
+		md = "-"
+	}
+
+	return fmt.Sprintf("cfg kind=%s q=%d b=%d t=%d tk=%d p=%d o=%d n=%d fl=%d stop=%d hy=%d fin=%d ns=%d sk=%d uq=%d dm=%d md=%s seed=%d",
+		c.kind, c.q, c.b, c.t, c.tk, c.p, c.o, c.n, c.fl, c.stop, c.hy, c.fin, c.ns, c.sk, c.uq, c.dm, md, c.seed)
 }
 
 // timeout is the configured batch time-out: besides the plain `t` ms, the legal corner values (a timer with a
@@ -149,6 +157,14 @@ func parseCfg(l string) (cfg, bool) {
 			c.tk = int(n)
 		case "sk":
 			c.sk = int(n)
+		case "uq":
+			c.uq = int(n)
+		case "dm":
+			c.dm = int(n)
+		case "md":
+			if v != "-" {
+				c.md = v
+			}
 		case "seed":
 			c.seed = n
 		}
@@ -190,6 +206,17 @@ func (w *world) recLocked(kind string, args ...int) {
 	w.ev = append(w.ev, sb.String())
 }
 
+// recStoreLocked records what the store holds for object id.
+func (w *world) recStoreLocked(id int) {
+	v, err := w.base.Get(key(id))
+	if err != nil {
+		w.recLocked("sx", id)
+	} else {
+		n, _ := strconv.Atoi(string(v))
+		w.recLocked("st", id, n)
+	}
+}
+
 func (w *world) traceLen() int {
 	w.mu.Lock()
 	defer w.mu.Unlock()
@@ -201,20 +228,66 @@ type obj struct {
 	w    *world
 	id   int
 	flag bool // guarded by w.mu: the flag operation and its trace record are one atomic action
-	ver  atomic.Int64
-	gate chan struct{} // when set, BatchWrite blocks on it after it has been recorded
+	// version<<2 | write mode: what the next BatchWrite does with the object's key
+	state atomic.Int64
+	gate  chan struct{} // when set, BatchWrite blocks on it after it has been recorded
+}
+
+// write modes of an object: what its BatchWrite puts into the batched mutations
+const (
+	modeSet    = 0 // Set(key, version)
+	modeDel    = 1 // Delete(key)
+	modeDelSet = 2 // Delete(key); Set(key, version)
+	modeSetDel = 3 // Set(key, version); Delete(key)
+)
+
+var modeNames = [...]string{"set", "del", "del+set", "set+del"}
+
+// bump gives the object a new version and the write mode of the Enqueue that follows.
+func (o *obj) bump(mode int) {
+	for {
+		old := o.state.Load()
+		if o.state.CompareAndSwap(old, ((old>>2)+1)<<2|int64(mode&3)) {
+			return
+		}
+	}
 }
 
 func key(id int) []byte { return []byte("o" + strconv.Itoa(id)) }
 
 func (o *obj) BatchWrite(m kvstore.BatchedMutations) {
-	v := int(o.ver.Load())
-	o.w.rec("w", o.id, v)
+	st := o.state.Load()
+	v, mode := int(st>>2), int(st&3)
+	// the value this BatchWrite leaves for the key: the version, or 0 = the key is deleted
+	net := v
+	if mode == modeDel || mode == modeSetDel {
+		net = 0
+	}
+	o.w.rec("w", o.id, net)
 	if o.gate != nil {
 		<-o.gate
 	}
-	if err := m.Set(key(o.id), []byte(strconv.Itoa(v))); err != nil {
-		panic(err)
+	set := func() {
+		if err := m.Set(key(o.id), []byte(strconv.Itoa(v))); err != nil {
+			panic(err)
+		}
+	}
+	del := func() {
+		if err := m.Delete(key(o.id)); err != nil {
+			panic(err)
+		}
+	}
+	switch mode {
+	case modeSet:
+		set()
+	case modeDel:
+		del()
+	case modeDelSet:
+		del()
+		set()
+	case modeSetDel:
+		set()
+		del()
 	}
 }
 
@@ -254,7 +327,26 @@ type recStore struct {
 
 type recBatch struct {
 	kvstore.BatchedMutations
-	w *world
+	w       *world
+	touched map[int]bool // objects whose key this batch sets or deletes (only the writer goroutine uses a batch)
+}
+
+func (b *recBatch) touch(k kvstore.Key) {
+	if id, err := strconv.Atoi(strings.TrimPrefix(string(k), "o")); err == nil {
+		b.touched[id] = true
+	}
+}
+
+func (b *recBatch) Set(k kvstore.Key, v kvstore.Value) error {
+	b.touch(k)
+
+	return b.BatchedMutations.Set(k, v)
+}
+
+func (b *recBatch) Delete(k kvstore.Key) error {
+	b.touch(k)
+
+	return b.BatchedMutations.Delete(k)
 }
 
 func (s *recStore) Batched() (kvstore.BatchedMutations, error) {
@@ -263,13 +355,25 @@ func (s *recStore) Batched() (kvstore.BatchedMutations, error) {
 		return nil, err
 	}
 
-	return &recBatch{BatchedMutations: b, w: s.w}, nil
+	return &recBatch{BatchedMutations: b, w: s.w, touched: map[int]bool{}}, nil
 }
 
 func (b *recBatch) Commit() error {
 	err := b.BatchedMutations.Commit()
 	if err == nil {
-		b.w.rec("cm")
+		// the commit and what it left in the store for every object of the batch (only the writer goroutine
+		// commits, so nothing else changes the store meanwhile)
+		ids := make([]int, 0, len(b.touched))
+		for id := range b.touched {
+			ids = append(ids, id)
+		}
+		sort.Ints(ids)
+		b.w.mu.Lock()
+		b.w.recLocked("cm")
+		for _, id := range ids {
+			b.w.recStoreLocked(id)
+		}
+		b.w.mu.Unlock()
 	}
 
 	return err
@@ -278,7 +382,9 @@ func (b *recBatch) Commit() error {
 func newWorld(c cfg) *world {
 	w := &world{c: c, base: mapdb.NewMapDB()}
 	opts := []kvstore.Option{kvstore.WithBatchTimeout(c.timeout())}
-	if c.q > 0 {
+	if c.uq == 1 {
+		opts = append(opts, kvstore.WithQueueSize(0))
+	} else if c.q > 0 {
 		opts = append(opts, kvstore.WithQueueSize(c.q))
 	}
 	if c.b > 0 {
@@ -309,8 +415,10 @@ func (w *world) spawn(p int, f func()) chan struct{} {
 	return done
 }
 
-func (w *world) enqueue(p int, o *obj) {
-	o.ver.Add(1)
+func (w *world) enqueue(p int, o *obj) { w.enqueueM(p, o, modeSet) }
+
+func (w *world) enqueueM(p int, o *obj, mode int) {
+	o.bump(mode)
 	w.rec("ec", p, o.id)
 	w.bw.Enqueue(o)
 	w.rec("er", p, o.id)
@@ -336,6 +444,25 @@ func (w *world) waitEvent(prefix string, d time.Duration) {
 		}
 		w.mu.Unlock()
 		if seen {
+			return
+		}
+		time.Sleep(50 * time.Microsecond)
+	}
+}
+
+// waitCount waits until n events with the given prefix have been recorded.
+func (w *world) waitCount(prefix string, n int, d time.Duration) {
+	deadline := time.Now().Add(d)
+	for time.Now().Before(deadline) {
+		w.mu.Lock()
+		seen := 0
+		for _, e := range w.ev {
+			if strings.HasPrefix(e, prefix) {
+				seen++
+			}
+		}
+		w.mu.Unlock()
+		if seen >= n {
 			return
 		}
 		time.Sleep(50 * time.Microsecond)
@@ -431,13 +558,7 @@ func (w *world) finish(prod []chan struct{}, stoppers []chan struct{}, bound tim
 		w.recLocked("bs", t)
 	}
 	for _, o := range w.objs {
-		v, err := w.base.Get(key(o.id))
-		if err != nil {
-			w.recLocked("sx", o.id)
-		} else {
-			n, _ := strconv.Atoi(string(v))
-			w.recLocked("st", o.id, n)
-		}
+		w.recStoreLocked(o.id)
 	}
 	w.frozen = true
 	ev := append([]string(nil), w.ev...)
@@ -518,6 +639,27 @@ func run(c cfg) []string {
 
 		return w.finish([]chan struct{}{p0, p1}, []chan struct{}{s0}, stressBound)
 
+	case "same-batch":
+		// one producer enqueues object 0 again and again, each time with the next write mode of c.md, and each time
+		// after the previous BatchWrite has happened: with a large batch size and time-out all BatchWrites fall
+		// into one batch (set then delete, delete then set, ... of one key inside one batch); the batch is
+		// committed by a Flush (fl=1) or by Stop / the time-out
+		p0 := w.spawn(0, func() {
+			for i, d := range c.md {
+				w.enqueueM(0, w.objs[0], int(d-'0'))
+				w.waitCount("w ", i+1, stressBound)
+			}
+			if c.fl > 0 {
+				w.rec("fl")
+				w.bw.Flush()
+				w.waitEvent("cm", stressBound)
+			}
+		})
+		waitFor(p0, 2*stressBound)
+		s0 := w.spawn(100, func() { w.stop(0) })
+
+		return w.finish([]chan struct{}{p0}, []chan struct{}{s0}, stressBound)
+
 	case "first-race":
 		// fresh writer: the very first Enqueue, StopBatchWriter (and a second Enqueue) are released together by a
 		// spin barrier, with a small skew; needs the calls to really run in parallel
@@ -545,7 +687,7 @@ func run(c cfg) []string {
 			p := p
 			prod = append(prod, w.spawn(p, func() {
 				o := w.objs[p%c.o]
-				o.ver.Add(1)
+				o.bump(modeSet)
 				w.rec("ec", p, o.id)
 				barrier(skewE * (1 + p))
 				w.bw.Enqueue(o)
@@ -610,7 +752,11 @@ func run(c cfg) []string {
 			prod = append(prod, w.spawn(p, func() {
 				<-start
 				for i := 0; i < c.n; i++ {
-					w.enqueue(p, w.objs[pr.Intn(c.o)])
+					mode := modeSet
+					if c.dm == 1 {
+						mode = pr.Intn(4)
+					}
+					w.enqueueM(p, w.objs[pr.Intn(c.o)], mode)
 					switch pr.Intn(6) {
 					case 0:
 						runtime.Gosched()
@@ -761,7 +907,8 @@ func oracle(lines []string) (per []string, end string) {
 			cms := idx("cm", -1, i)
 			want, have := 0, false
 			if len(cms) > 0 {
-				if ws := idx("w", e.a, cms[len(cms)-1]); len(ws) > 0 {
+				// the last BatchWrite of the object before the last commit wins; value 0 = it deleted the key
+				if ws := idx("w", e.a, cms[len(cms)-1]); len(ws) > 0 && ev[ws[len(ws)-1]].b != 0 {
 					want, have = ev[ws[len(ws)-1]].b, true
 				}
 			}
@@ -921,7 +1068,14 @@ func emit(r *hx.Run, sub uint64, res result) (failed bool) {
 		r.Line(fmt.Sprintf("model %s q=%d p=%d", res.c.kind, res.c.q, res.c.p), projections(res.ev, res.c.p, max(1, res.c.ns)))
 	}
 	r.Count("kind:" + res.c.kind)
-	r.Count(fmt.Sprintf("q:%d", res.c.q))
+	if res.c.uq == 1 {
+		r.Count("q:unbuffered")
+	} else {
+		r.Count(fmt.Sprintf("q:%d", res.c.q)) // 0 = default (10000)
+	}
+	if res.c.dm == 1 || res.c.md != "" {
+		r.Count("write-modes:varied")
+	}
 	r.Count(fmt.Sprintf("b:%d", res.c.b)) // 0 = default (10000)
 	if res.c.tk == 0 {
 		r.Count(fmt.Sprintf("t:%dms", res.c.t))
@@ -937,6 +1091,14 @@ func emit(r *hx.Run, sub uint64, res result) (failed bool) {
 	r.Count("verdict:" + verdict)
 	nW, nD, nCm, pend, full, part, dup, racing, afterTc := 0, 0, 0, 0, 0, 0, 0, 0, false
 	var kinds []string
+	open := map[int]int{} // object -> net value of its BatchWrite in the batch that is still open
+	kindOf := func(v int) string {
+		if v == 0 {
+			return "del"
+		}
+
+		return "set"
+	}
 	for _, l := range res.ev {
 		e := parseEv(l)
 		kinds = append(kinds, e.k)
@@ -944,6 +1106,15 @@ func emit(r *hx.Run, sub uint64, res result) (failed bool) {
 		case "w":
 			nW++
 			pend++
+			if prev, again := open[e.a]; again {
+				// the object is written a second time into the batch that is still open
+				r.Count("same-batch-rewrite:" + kindOf(prev) + "->" + kindOf(e.b))
+			}
+			open[e.a] = e.b
+		case "st", "sx":
+			if nCm > 0 && !afterTc {
+				r.Count("store-observed-after-commit:" + e.k)
+			}
 		case "d":
 			nD++
 		case "cm":
@@ -954,6 +1125,7 @@ func emit(r *hx.Run, sub uint64, res result) (failed bool) {
 				part++
 			}
 			pend = 0
+			open = map[int]int{}
 		case "sd":
 			dup++
 		case "tc":
@@ -1038,6 +1210,14 @@ func runBatch(r *hx.Run, cs []cfg, par int) {
 	}
 }
 
+func b2i(b bool) int {
+	if b {
+		return 1
+	}
+
+	return 0
+}
+
 func main() {
 	r := hx.Start()
 	r.MaxSamples = 2
@@ -1097,7 +1277,8 @@ func main() {
 	var forced []cfg
 	for i := 0; i < 150*r.Scale; i++ {
 		rng, s := r.Rng.Fork()
-		forced = append(forced, cfg{kind: "stop-after-first", q: 1 + i%4, b: pickB(rng), t: timeouts[i%3], tk: pickTk(rng), p: 1, o: 1, n: 1, seed: s})
+		forced = append(forced, cfg{kind: "stop-after-first", q: 1 + i%4, b: pickB(rng), t: timeouts[i%3], tk: pickTk(rng), p: 1, o: 1, n: 1,
+			uq: b2i(i%6 == 5), seed: s})
 	}
 	runBatch(r, forced, 4)
 	forced = forced[:0]
@@ -1116,6 +1297,34 @@ func main() {
 		forced = append(forced, cfg{kind: "window-block", q: q, b: 1, t: 1, p: q + 1, o: q + 1, n: 1, seed: s})
 	}
 	runBatch(r, forced, 4)
+	// same-batch: every sequence of two write modes, and random ones of length 3..5, re-enqueued into one batch
+	forced = forced[:0]
+	var mds []string
+	for a := 0; a < 4; a++ {
+		for b := 0; b < 4; b++ {
+			mds = append(mds, fmt.Sprintf("%d%d", a, b))
+		}
+	}
+	for i := 0; i < 32*r.Scale; i++ {
+		md := ""
+		for k, n := 0, r.Rng.Range(3, 5); k < n; k++ {
+			md += strconv.Itoa(r.Rng.Intn(4))
+		}
+		mds = append(mds, md)
+	}
+	for i, md := range mds {
+		rng, s := r.Rng.Fork()
+		c := cfg{kind: "same-batch", q: rng.Range(1, 4), b: 0, t: 50, p: 1, o: 1, n: len(md), md: md, fl: i % 2, seed: s}
+		switch i % 4 {
+		case 2:
+			c.b = len(md) // the batch-size trigger commits it
+		case 3:
+			c.b = len(md) + 1
+			c.uq = 1
+		}
+		forced = append(forced, c)
+	}
+	runBatch(r, forced, 8)
 	// first Enqueue || Stop (|| second Enqueue) on thousands of fresh writers, two at a time so that the
 	// barrier-released calls really run in parallel
 	races := 3000
@@ -1126,7 +1335,7 @@ func main() {
 	for i := 0; i < races; i++ {
 		_, s := r.Rng.Fork()
 		forced = append(forced, cfg{kind: "first-race", q: 1 + i%2, b: 1 + (i/2)%2, t: 1, tk: (i / 4) % 4, p: 1 + (i/16)%2, o: 2, n: 1, fin: 1,
-			sk: i % 96, seed: s})
+			sk: i % 96, uq: b2i(i%5 == 4), seed: s})
 		if len(forced) == 500 || i == races-1 {
 			runBatch(r, forced, 2)
 			forced = forced[:0]
@@ -1143,6 +1352,11 @@ func main() {
 			o: rng.Range(1, 4), n: rng.Range(1, 12), fin: 1, seed: s}
 		if rng.Chance(1, 8) {
 			c.q = 0 // default queue size (option not passed)
+		} else if rng.Chance(1, 6) {
+			c.uq = 1 // WithQueueSize(0): unbuffered
+		}
+		if rng.Chance(1, 2) {
+			c.dm = 1
 		}
 		if rng.Chance(1, 2) {
 			c.fl = rng.Range(1, 4)
